@@ -230,10 +230,21 @@ func (s *c01Src) Close() error { return nil }
 // from the index (as `stfs operation archive|update` passes it from os.Stat), batched with one or two
 // members; afterwards a rebuilt index shows what the live one shows.
 func Harness_C01_archive_level_calls() {
-	v := verifNewFS(config.PipeConfig{}, false, true)
+	pipes := config.PipeConfig{}
+	largeRecords := vm.Bool("recordSize1024")
+	if largeRecords {
+		pipes.RecordSize = 1024
+	}
+	v := verifNewFS(pipes, false, true)
 	v.rootOnly()
 	v.Env.AddEntry("/d", tar.TypeDir, 0, false, "")
 	v.Env.AddEntry("/d/g", tar.TypeReg, 3, false, "")
+	if largeRecords {
+		// records of more than 512 blocks: an entry late in record 0 (block > 512) and the newest one early in record 1
+		v.Env.AddEntry("/big1", tar.TypeReg, 310000, false, "")
+		v.Env.AddEntry("/big2", tar.TypeReg, 250000, false, "")
+		v.Env.AddEntry("/late", tar.TypeReg, 0, false, "")
+	}
 	size := vm.Concretize(vm.Int("size", 0, 3))
 	content := make([]byte, size)
 	for i := range content {
